@@ -56,6 +56,27 @@ func StableLoads(fn *ssa.Function, eff *Eff) map[ssa.Value]ssa.Value {
 		}
 		first := strings.SplitN(strings.TrimPrefix(k.path, "."), ".", 2)[0]
 		writers := fieldWriters(fn, eff, k.root, first)
+		// a location nothing writes after the parameter was copied into it (the usual case for the fields
+		// of a by-value receiver) holds one value throughout: every load equals the first, dominated or not
+		// (a load inside an expanded helper's early-exit structure does not dominate the code after it)
+		onlyParamCopy := true
+		for _, w := range writers {
+			st, isSt := w.(*ssa.Store)
+			if !isSt || st.Addr != k.root {
+				onlyParamCopy = false
+				break
+			}
+			if _, isParam := st.Val.(*ssa.Parameter); !isParam || st.Block() != fn.Blocks[0] {
+				onlyParamCopy = false
+				break
+			}
+		}
+		if onlyParamCopy {
+			for i := 1; i < len(lds); i++ {
+				out[lds[i]] = lds[0]
+			}
+			continue
+		}
 		for i := 1; i < len(lds); i++ {
 			// representative: the earliest load that dominates lds[i] with no writer in between
 			for j := 0; j < i; j++ {
